@@ -61,7 +61,9 @@ def _tree(e, names):
 
 
 def run(facts, chk, tier, only=None):
-    new = facts.fn(CH + '::new')
+    from ..facts import fn_with_helpers
+    # helpers wrapping the counting statement are inlined, so `entry(kmer).and_modify(+1).or_insert(1)` may live in a private method
+    new = fn_with_helpers(facts, CH + '::new', lambda c: (c.name or '').endswith('HashMap::entry'))
 
     # ---------------------------------------------------------------- iterator identity
     def it():
@@ -79,15 +81,23 @@ def run(facts, chk, tier, only=None):
         ent = [(bb, t) for bb, t in new.calls() if (t.callee.name or '').endswith('HashMap::entry')]
         oi = [(bb, t) for bb, t in new.calls() if (t.callee.name or '').endswith('Entry::or_insert')]
         ok_blocks = len(ent) == 2 and len(oi) == 2 and all(eb.operand(t.args[1]) == ('const', 1, 'u32') for _, t in oi)
-        cls = [c for c in facts.closures_of(CH + '::new') if any(s.k == 'assign' and s.rv.k == 'binop' and s.rv.op.startswith('Add') for b in c.blocks for s in b.stmts)]
+        # each and_modify site passes a closure whose only arithmetic is `+= 1`
+        am = [(bb, t) for bb, t in new.calls() if (t.callee.name or '').endswith('Entry::and_modify')]
         incs = []
-        for c in cls:
+        ncl = 0
+        for _, t in am:
+            cl = [x[1][8:] for x in subexprs(eb.operand(t.args[1])) if x[0] == 'agg' and x[1].startswith('closure:')]
+            if len(cl) != 1 or cl[0] not in facts.bodies:
+                raise AnchorLost('and_modify closure not found')
+            ncl += 1
+            c = facts.bodies[cl[0]]
             ebc = ExprBuilder(c)
-            for b in c.blocks:
-                for s in b.stmts:
-                    if s.k == 'assign' and s.rv.k == 'binop' and s.rv.op.startswith('Add'):
-                        incs.append(ebc.operand(s.rv.ops[1]))
-        ok_inc = len(cls) == 2 and all(x == ('const', 1, 'u32') for x in incs)
+            adds = [s for b in c.blocks for s in b.stmts if s.k == 'assign' and s.rv.k == 'binop' and s.rv.op.startswith(('Add', 'Sub', 'Mul', 'Shl'))]
+            if len(adds) != 1 or not adds[0].rv.op.startswith('Add'):
+                incs.append(('not-a-single-add',))
+            else:
+                incs.append(ebc.operand(adds[0].rv.ops[1]))
+        ok_inc = len(am) == 2 and ncl == 2 and all(x == ('const', 1, 'u32') for x in incs)
         # the keys are the k-mers of get_curr_kmer / get_next_kmer
         keys = [show(eb.operand(t.args[1])) for _, t in ent]
         ok_keys = any('get_curr_kmer' in k for k in keys) and any('get_next_kmer' in k for k in keys)
@@ -126,19 +136,7 @@ def run(facts, chk, tier, only=None):
         fh = facts.fn(CH + '::fit_histogram')
         eb = ExprBuilder(fh, through_vars=False)
         ebt = ExprBuilder(fh)
-        # writer: kc = (*kmer_count - 1) as usize; if kc < MAX_COUNT { counts[kc] += 1 }
-        kc = fh.locals_named('kc')
-        if len(kc) != 1:
-            raise AnchorLost('fit_histogram: local kc')
-        kce = ebt.local_expr(kc[0])
-        af = affine(kce, atom_of=lambda e: 'count' if 'kmer_count' in show(e) or e[0] in ('deref',) else show(e))
-        ok_w = af is not None and af[1] == -1 and len(af[0]) == 1 and list(af[0].values()) == [1]
         mc = facts.const_int('coverage::MAX_COUNT')
-        guard = [b.idx for b in fh.blocks if b.idx in fh.live_blocks() and b.term.k == 'switch' and
-                 show(eb.operand(b.term.discr)).replace(' ', '') in ('(kc<MAX_COUNT)', '(kc<%d)' % mc)]
-        idxm = [(bb, t) for bb, t in fh.calls() if (t.callee.name or '').endswith('index_mut') and 'Vec<u32>' in (t.callee.full or '')]
-        ok_g = len(guard) == 1 and len(idxm) == 1 and fh.dominates(guard[0], idxm[0][0]) and show(eb.operand(idxm[0][1].args[1])) == 'kc'
-        res.append(('writer', ok_w and ok_g, 'counts[kc] += 1 with kc = %s, guarded by kc < MAX_COUNT(%d)' % (show(kce), mc)))
         # counts initialised with MAX_COUNT zeros
         ebn = ExprBuilder(new)
         fe = [(bb, t) for bb, t in new.calls() if (t.callee.name or '') == 'std::vec::from_elem']
@@ -178,43 +176,84 @@ def run(facts, chk, tier, only=None):
         return res
     r = chk.guard('C20.index', 'C20.index:scan', index)
     if r is not None:
-        chk.floor('C20.index', 'index-convention sites', len(r), 7)
+        chk.floor('C20.index', 'index-convention sites', len(r), 6)
         for nm, ok, why in r:
             if ok:
                 chk.ok('C20.index', 'C20.index:%s' % nm, CV, why)
             else:
                 chk.violation('C20.index', 'C20.index:%s' % nm, where=CV, detail='row i <-> multiplicity i+1 broken: ' + why)
 
-    # ---------------------------------------------------------------- truncation
-    def trunc():
+    # ---------------------------------------------------------------- histogram + truncation (semantic)
+    # The part of fit_histogram before the model is constructed is interpreted on abstract CoverageHistogram values
+    # (k-mer multiplicity maps) and the resulting `counts` table compared with the specified one:
+    #   counts[i] = #k-mers of multiplicity i+1 (multiplicities > MAX_COUNT dropped), cut after the last row >= MIN_FREQ.
+    def hist():
         fh = facts.fn(CH + '::fit_histogram')
-        mf = facts.const_int('coverage::MIN_FREQ')
-        cls = facts.closures_of(CH + '::fit_histogram')
-        sw = [(bb, t) for bb, t in fh.calls() if (t.callee.name or '').endswith('skip_while')]
-        if len(sw) != 1:
-            raise AnchorLost('fit_histogram: %d skip_while calls' % len(sw))
-        eb = ExprBuilder(fh)
-        src = show(eb.operand(sw[0][1].args[0]))
-        ok_rev = 'rev(' in src and 'iter(' in src
-        rv = [bb for bb, t in fh.calls() if (t.callee.name or '').endswith('::reverse')]
-        cl = [x[1][8:] for x in subexprs(eb.operand(sw[0][1].args[1])) if x[0] == 'agg' and x[1].startswith('closure:')]
-        c = facts.bodies[cl[0]]
-        I = Interp(facts)
-        bad = []
-        for v in (0, 1, mf - 1, mf, mf + 1, 1000):
-            env = Agg('closure:' + c.path, 0, [])
-            envv = RefV(Cell(env, 'env')) if c.local_ty(1).startswith('&') else env
-            r = I.exec_body(c, [envv, RefV(Cell(RefV(Cell(BV(32, v), 'x')), 'xx'))])
-            if r.val != int(v < 50):
-                bad.append((v, r.val))
-        return mf == 50 and ok_rev and len(rv) == 1 and not bad, 'MIN_FREQ=%d, skip_while over the reversed counts, reversed back, predicate x < 50: %s' % (mf, bad)
-    r = chk.guard('C20.trunc', 'C20.trunc:fit_histogram', trunc)
+        mf = 50                       # the property: "up to the last multiplicity shared by at least 50 split k-mers"
+        mc = facts.const_int('coverage::MAX_COUNT')
+        stop = [b.idx for b in fh.blocks if b.idx in fh.live_blocks() and
+                any(s.k == 'assign' and s.rv.k == 'aggregate' and s.rv.j['kind'].get('adt') == 'coverage::MixPoisson' for s in b.stmts)]
+        if len(stop) != 1:
+            raise AnchorLost('fit_histogram: %d MixPoisson constructions' % len(stop))
+        names = [x['name'] for x in facts.adt(CH)['variants'][0]['fields']]
+        if sorted(names) != sorted(['k', 'rc', 'kmer_dict', 'counts', 'w0', 'c', 'cutoff', 'verbose', 'fitted']):
+            raise AnchorLost('CoverageHistogram fields are %s' % names)
+        from ..absint.interp import MapV
+        from ..absint.values import Opaque
+
+        def run_one(mults):
+            m = MapV()
+            i = 0
+            for mult, n in mults:
+                for _ in range(n):
+                    i += 1
+                    m.d[('bv', 64, i)] = (BV(64, i), Cell(BV(32, mult), 'cnt'))
+            vals = dict(k=BV(64, 31), rc=BV(1, 1), kmer_dict=m, counts=Agg('array', 0, [BV(32, 0)] * mc), w0=Opaque('w0'), c=Opaque('c'),
+                        cutoff=BV(64, 0), verbose=BV(1, 0), fitted=BV(1, 0))
+            cell = Cell(Agg('adt:' + CH, 0, [vals[n] for n in names]), 'self')
+            I = Interp(facts, {'IntT': 'u64'})
+            fr = I.new_frame(fh)
+            fr[1].v = RefV(cell)
+            I.exec_body(fh, [], start=0, stop=stop, frame=fr)
+            return [x.val for x in cell.v.fields[names.index('counts')].fields]
+
+        def spec(mults):
+            h = [0] * mc
+            for mult, n in mults:
+                if 1 <= mult <= mc:
+                    h[mult - 1] += n
+            last = max([i for i, v in enumerate(h) if v >= mf], default=-1)
+            return h[:last + 1]
+        cases = [[(1, 60), (2, mf), (3, mf - 1)], [(1, 60), (2, mf + 1), (3, mf - 1)], [(1, mf - 1)], [(1, mf), (7, mf), (8, 3)], [(2, mf)],
+                 [(1, 60), (2, mf), (3, mf - 1), (5, mf + 1), (6, mf - 1), (mc, mf + 5), (mc + 1, 70)], [(1, 70), (mc - 1, mf), (mc + 1, 90)],
+                 [(1, 60), (2, 20), (3, 20), (4, 20), (3, 10)], []]
+        if tier == 'thorough':
+            import itertools as _it
+            for tail in _it.product((0, mf - 1, mf, mf + 1), repeat=3):
+                cases.append([(1, 60)] + [(2 + i, n) for i, n in enumerate(tail) if n])
+        bad_w, bad_t = [], []
+        for cse in cases:
+            got, want = run_one(cse), spec(cse)
+            if got != want:
+                (bad_t if got[:min(len(got), len(want))] == want[:min(len(got), len(want))] else bad_w).append((cse, got[:8], len(got), want[:8], len(want)))
+        return len(cases), bad_w, bad_t, mf, mc
+    r = chk.guard('C20.trunc', 'C20.trunc:fit_histogram', hist)
     if r is not None:
-        ok, why = r
-        if ok:
-            chk.ok('C20.trunc', 'C20.trunc:fit_histogram', CH + '::fit_histogram', why, evals=6)
+        n, bad_w, bad_t, mf, mc = r
+        if bad_t:
+            chk.violation('C20.trunc', 'C20.trunc:fit_histogram', where=CH + '::fit_histogram', evals=n,
+                          detail='table must end after the last row >= MIN_FREQ(%d): (multiplicity, k-mers)=%s gives %d rows %s.., specified %d rows %s..' %
+                                 ((mf,) + (bad_t[0][0], bad_t[0][2], bad_t[0][1], bad_t[0][4], bad_t[0][3])))
         else:
-            chk.violation('C20.trunc', 'C20.trunc:fit_histogram', where=CH + '::fit_histogram', detail=why)
+            chk.ok('C20.trunc', 'C20.trunc:fit_histogram', CH + '::fit_histogram',
+                   'interpreted histogram prefix: table cut exactly after the last row >= MIN_FREQ(%d) on %d multiplicity maps (rows of %d/%d/%d k-mers at the tail)' % (mf, n, mf - 1, mf, mf + 1), evals=n)
+        if bad_w:
+            chk.violation('C20.index', 'C20.index:writer', where=CH + '::fit_histogram', evals=n,
+                          detail='row i <-> multiplicity i+1 broken: (multiplicity, k-mers)=%s gives %s.. (%d rows), specified %s.. (%d rows)' %
+                                 (bad_w[0][0], bad_w[0][1], bad_w[0][2], bad_w[0][3], bad_w[0][4]))
+        else:
+            chk.ok('C20.index', 'C20.index:writer', CH + '::fit_histogram',
+                   'interpreted histogram prefix: counts[m-1] = #k-mers of multiplicity m, multiplicities > MAX_COUNT(%d) dropped (%d multiplicity maps)' % (mc, n), evals=n)
 
     # ---------------------------------------------------------------- gradient identity
     def grad():
